@@ -6,6 +6,7 @@ from props import _timegrid as tg
 
 KEY_F07 = "recorded-at-unrequested-default-time"
 KEY_F08 = "near-duplicate-grid-points"
+KEY_GATE = "recorded-within-gate-tolerance"  # open known finding: merge tolerance 1e-12 vs gate tolerance 1e-10
 MATCH_TOL = 1e-9  # a recorded relative time counts as the requested one within this (>= 1e6 ulp)
 
 
@@ -35,8 +36,8 @@ def property_check(ctx, case, r):
     rel = [t / T for t in tt]
     # strong = the input satisfies the premise of C14_recorded_exactly_at_requested_times (no two distinct
     # candidate times 0.5e-12..4e-9 apart): exactly once per requested time and nothing else.
-    # weak = clusters inside that window: the theorems only give "every requested time is recorded within
-    # 1e-12" and "every recorded time is within 1e-10 of a requested one".
+    # weak = clusters inside that window: the count within 1e-9 is ambiguous there, everything else is checked;
+    # in particular a value at a grid time 1e-12..1e-10 off a requested time is the finding KEY_GATE.
     mode = tg.premise_mode(case, T)
     near_tol = tg.TOLU * 1.01 + 1e-15
     for j, rec in enumerate(r["recs"]):
@@ -58,9 +59,20 @@ def property_check(ctx, case, r):
                 if n != 1:
                     return ctx.violation(f"observable {j}: requested time {q} recorded {n} times",
                                          dict(info, finding_key="requested-not-once"))
-        out_tol = MATCH_TOL if mode == "strong" else tg.TOLB * 1.01
-        extra = [t for t in times if not any(abs(t - q) <= out_tol for q in req)]
+        # a value recorded at a grid time that is not (within the merge tolerance) a time requested for
+        # this observable: the observable was recorded at a time it was not asked for
+        extra = [t for t in times if not any(abs(t - q) <= near_tol for q in req)]
         if extra:
+            gate_tol = tg.TOLB * 1.01
+            if all(any(abs(t - q) <= gate_tol for q in req) for t in extra):
+                # the extra grid time lies 1e-12..1e-10 from a requested time: not merged with it by the
+                # adapter (1e-12) but accepted by the backends' _is_evaluation_time (1e-10)
+                near = [(t, min(req, key=lambda q: abs(t - q))) for t in extra]
+                return ctx.violation(
+                    f"observable {j} (requested {req}) is also recorded at {extra}: grid times that are not "
+                    f"requested for it but lie within the gate tolerance 1e-10 of a requested time "
+                    f"(distances {[abs(t - q) for t, q in near]})",
+                    dict(info, extra=extra, finding_key=KEY_GATE))
             dfl = [] if case["dflt"] == "Full" else case["dflt"]
             from_default = case["dflt"] == "Full" or all(any(abs(t - d) <= MATCH_TOL for d in dfl) for t in extra)
             key = KEY_F07 if (case["obs"][j] is not None and from_default) else "recorded-unrequested"
@@ -203,10 +215,12 @@ def run(ctx):
     ctx.assumptions += [
         "theorems are in exact real arithmetic with an explicit separation premise on the grid",
         "a recorded time counts as the requested one within 1e-9 (relative): (t*T)/T need not round-trip",
-        "oracle modes follow the premise of C14_recorded_exactly_at_requested_times: inputs with two distinct "
-        "candidate times 0.5e-12..4e-9 apart (relative) are only required to record every requested time within "
-        "1e-12 and nothing farther than 1e-10 from a requested time (an observable may be recorded at both of two "
-        "grid points 1e-12..1e-10 apart); all other inputs: exactly once per requested time and nothing else",
+        "every input: each requested time has a value within 1e-12, and no value is recorded at a grid time "
+        "farther than 1.01e-12 from every time requested for that observable; a value at a grid time 1e-12..1e-10 "
+        "from a requested time (merge tolerance vs gate tolerance) is reported under the key "
+        "recorded-within-gate-tolerance (open known finding; excluded by the premise of "
+        "C14_recorded_exactly_at_requested_times); the count 'exactly once within 1e-9' is checked when no two "
+        "distinct candidate times are 0.5e-12..4e-9 apart",
         "the value's state is identified by the number of solver steps completed (probe observable); what each "
         "observable computes from that state is C13",
         "noisy emu-mps runs record in timestep_complete exactly like the noiseless ones (same code path); jump "
